@@ -396,19 +396,22 @@ static void components_case(Result &r, bool same_step, long nsteps)
 // "script-driven actions have the same effect as the equivalent configuration-file path": a variable whose component
 // coefficient (and exponent) is changed with "cv colvar <name> modifycvcs" against a twin defined with that coefficient
 // in the configuration, on the same atoms, each with its own restraint and total-force calculation.
-static void modifycvcs_case(Result &r, bool same_step, long nsteps)
+static void modifycvcs_case(Result &r, bool same_step, long nsteps, bool periodic = false)
 {
   Scn sc; sc.id = "E"; sc.natoms = 6;
   vproxy *px = new_px(sc, same_step);
-  auto cvdef = [](std::string const &name, std::string const &coeff) {
+  auto cvdef = [periodic](std::string const &name, std::string const &coeff) {
+    if (periodic)   // (a periodic component: with a coefficient other than 1 the variable is no longer periodic)
+      return "colvar {\n name " + name + "\n dihedral {\n componentCoeff " + coeff + "\n group1 { atomNumbers 1 }\n group2 { atomNumbers 2 }\n group3 { atomNumbers 3 }\n group4 { atomNumbers 4 }\n }\n}\n";
     return "colvar {\n name " + name + "\n outputTotalForce on\n distance {\n componentCoeff " + coeff + "\n group1 { atomNumbers 1 2 }\n group2 { atomNumbers 3 }\n }\n}\n";
   };
+  std::string const hpar = periodic ? "centers -300.0\n forceConstant 0.01" : "centers 0.5\n forceConstant 2.0";
   std::string conf = cvdef("t", "2.0") + cvdef("u", "1.0") +
-                     "harmonic {\n name ht\n colvars t\n centers 0.5\n forceConstant 2.0\n}\nharmonic {\n name hu\n colvars u\n centers 0.5\n forceConstant 2.0\n}\n";
+                     "harmonic {\n name ht\n colvars t\n " + hpar + "\n}\nharmonic {\n name hu\n colvars u\n " + hpar + "\n}\n";
   if (px->config(conf) != 0) { fprintf(stderr, "library refused the modifycvcs scenario: %s\n", px->errtxt.c_str()); _exit(3); }
   for (const char *n : {"t", "u"}) if (cvs(*px, W({"cv", "colvar", n, "set", "collect_gradient", "1"})).rc != 0) { fprintf(stderr, "HARNESS-ERROR: collect_gradient\n"); _exit(2); }
   auto bad = [&](long st, std::string const &what, std::string const &got, std::string const &want) {
-    r.violation("C20:agree:modifycvcs-differs-from-the-same-coefficient-in-the-configuration:" + what,
+    r.violation(std::string("C20:agree:modifycvcs-differs-from-the-same-coefficient-in-the-configuration:") + (periodic ? "periodic-component:" : "") + what,
                 "{\"part\":2,\"scenario\":\"E\",\"total_forces_same_step\":" + std::string(same_step ? "true" : "false") + ",\"after_engine_step\":" + std::to_string(st) +
                 ",\"variable_changed_by_script\":\"" + jesc(got.substr(0, 300)) + "\",\"variable_defined_in_configuration\":\"" + jesc(want.substr(0, 300)) + "\"}");
   };
@@ -423,10 +426,12 @@ static void modifycvcs_case(Result &r, bool same_step, long nsteps)
     if (px->step(s) != 0) { bad(s, "step-fails", px->errtxt, ""); break; }
     r.count("transitions");
     if (s < 2) continue;   // (with total forces one step late, the force measured at step 1 still belongs to the old coefficient)
-    for (const char *q : {"value", "getappliedforce", "gettotalforce", "getgradients"}) {
+    for (const char *q : {"value", "getappliedforce", "gettotalforce", "getgradients", "energy"}) {
+      if (periodic && !strcmp(q, "gettotalforce")) continue;
       r.count("evaluations"); r.count("p2_comparisons");
-      r.seen("nontrivial", "p2:E:" + std::to_string(same_step) + ":" + std::to_string(s) + ":" + q);
-      SR a = cvs(*px, W({"cv", "colvar", "u", q})), b = cvs(*px, W({"cv", "colvar", "t", q}));
+      r.seen("nontrivial", "p2:E:" + std::to_string(same_step) + std::to_string(periodic) + ":" + std::to_string(s) + ":" + q);
+      bool const en = !strcmp(q, "energy");   // (the energy of the restraint on each variable)
+      SR a = en ? cvs(*px, W({"cv", "bias", "hu", "energy"})) : cvs(*px, W({"cv", "colvar", "u", q})), b = en ? cvs(*px, W({"cv", "bias", "ht", "energy"})) : cvs(*px, W({"cv", "colvar", "t", q}));
       std::vector<double> ga, gb;
       if (a.rc != 0 || b.rc != 0 || !parse_nums(a.out, ga) || !parse_nums(b.out, gb) || ga.size() != gb.size()) { bad(s, std::string(q) + ":shape", a.out + a.msgs, b.out + b.msgs); break; }
       bool same = true;
@@ -486,6 +491,7 @@ void part2(std::vector<Scn> const &scs, Args const &args, Result &total)
   jobs.push_back({-1, true, 0});   // two-component variable with cvcflags (own scenario D)
   jobs.push_back({-2, false, 0});  // modifycvcs against the same coefficient in the configuration (own scenario E)
   jobs.push_back({-2, true, 0});
+  jobs.push_back({-5, true, 0});   // ... of a periodic component
   jobs.push_back({-3, true, 0});   // gradients of a group fitted on itself (own scenario F)
   jobs.push_back({-4, true, 0});   // ... and with a separate fitting group
   jobs.push_back({-1, false, 0});
@@ -498,7 +504,7 @@ void part2(std::vector<Scn> const &scs, Args const &args, Result &total)
     for (size_t j = shard; j < jobs.size(); j += nsh) {
       run_cases_forked(j, j + 1, [&](size_t ji, Result &rr) {
         Job const &jb = jobs[ji];
-        if (jb.si == -2) { modifycvcs_case(rr, jb.same, std::max<long>(nsteps, 6)); return; }
+        if (jb.si == -2 || jb.si == -5) { modifycvcs_case(rr, jb.same, std::max<long>(nsteps, 6), jb.si == -5); return; }
         if (jb.si == -3 || jb.si == -4) { fitted_gradients_case(rr, jb.same, std::max<long>(nsteps, 4), jb.si == -4); return; }
         if (jb.si < 0) { components_case(rr, jb.same, std::max<long>(nsteps, 6)); return; }
         Scn const &sc = scs[jb.si];
@@ -530,7 +536,7 @@ void part2(std::vector<Scn> const &scs, Args const &args, Result &total)
         }
         delete px;
       }, [&](size_t ji, std::string const &kind, std::string const &tail) {
-        r.violation("C20:crash:query-battery:" + kind, "{\"part\":2,\"scenario\":\"" + (jobs[ji].si <= -3 ? std::string("F") : jobs[ji].si == -2 ? std::string("E") : (jobs[ji].si < 0 ? std::string("D") : scs[jobs[ji].si].id)) + "\",\"death\":\"" + jesc(kind) + "\",\"report\":\"" + jesc(tail) + "\"}");
+        r.violation("C20:crash:query-battery:" + kind, "{\"part\":2,\"scenario\":\"" + ((jobs[ji].si == -3 || jobs[ji].si == -4) ? std::string("F") : (jobs[ji].si == -2 || jobs[ji].si == -5) ? std::string("E") : (jobs[ji].si < 0 ? std::string("D") : scs[jobs[ji].si].id)) + "\",\"death\":\"" + jesc(kind) + "\",\"report\":\"" + jesc(tail) + "\"}");
       }, r);
     }
   }, total, 1800);
